@@ -43,6 +43,15 @@ theorem invoke_inc {P : Prog} {rank : Nat → Nat} {f : Nat} {B : List NodeId} (
   unfold invoke
   simp only [hany, Bool.false_eq_true, if_false, he3, r3.stack]
 
+theorem kind_derived' {rd : Read} {q : NodeId} (h : rd.kind = .derived q) : ∃ w, rd = .node q w := by
+  cases rd with
+  | src k o =>
+    simp only [Read.kind] at h
+    by_cases ho : o.1.isSome = true
+    · rw [if_pos ho] at h; cases h
+    · rw [if_neg ho] at h; cases h
+  | node x w => simp only [Read.kind] at h; cases h; exact ⟨w, rfl⟩
+
 /-- the busy node has been dealt with and its stored revision satisfies `RevOk` -/
 theorem unbusy {P : Prog} {s : Storage} {id : NodeId} {B : List NodeId} (h : INV P s (id :: B))
     (hstk : ∀ fr, fr ∈ s.stack → fr.id ∈ B)
@@ -184,14 +193,29 @@ theorem install {P : Prog} {rank : Nat → Nat} {B : List NodeId} (hacy : Acycli
     by_cases hni : n = id
     · subst hni
       rw [hlid] at hn; cases hn
-      exact revOk_of_run hbig hreads hexact hstamps htu horder sF he hs hm hlk hnodeR
+      exact revOk_of_run hbig hreads hexact hstamps htu horder hinv3.srcTu hmaxE sF he hs hm hlk hnodeR
     · rw [hlk n hni] at hn
       have hok3 := hinv3.nodes n r hn (fun hmem => by rcases List.mem_cons.1 hmem with e | e; exact hni e; exact hnB e)
       by_cases hrk : rank n.fn ≤ rank id.fn
       · -- cannot have read `id`: the edges of its ghost run are untouched by the installation
         obtain ⟨σx, mx, Rn, hbn, hdf, hx⟩ := hok3.ghost
-        refine ⟨by rw [he]; exact hok3.tv_le, hok3.tu_tv, hok3.stamps, hok3.tu_stamp, ?_, σx, mx, Rn, hbn, ?_, hx⟩
+        refine ⟨by rw [he]; exact hok3.tv_le, hok3.tu_tv, hok3.stamps, hok3.tu_stamp, ?_, ?_, σx, mx, Rn, hbn, ?_, hx⟩
         · intro ht; rw [hs, hm]; exact hok3.correct (by rw [← he]; exact ht)
+        · intro ht d hdm
+          have hq3 := hok3.quiet (by rw [← he]; exact ht) d hdm
+          unfold DepQuiet at hq3 ⊢
+          cases hn' : d.node with
+          | source k => rw [hn'] at hq3; simp only at hq3 ⊢; rw [hs]; exact hq3
+          | absent k => rw [hn'] at hq3; simp only at hq3 ⊢; rw [hs]; exact hq3
+          | derived x =>
+            rw [hn'] at hq3; simp only at hq3 ⊢
+            obtain ⟨rd, hrd, hk⟩ := hx.1 d hdm
+            obtain ⟨w, hw⟩ := kind_derived' (hk.trans hn')
+            have hxi : x ≠ id := by
+              intro e
+              have := hacy n.fn x.fn (BigE.node_reads hbn x w (hw ▸ hrd))
+              rw [e] at this; omega
+            rw [hlk x hxi, he]; exact hq3
         · intro rd hrd
           have h0 := hdf rd hrd
           cases rd with
